@@ -1,7 +1,9 @@
 // Verification hooks: compiled only with `--cfg fuse_backend_rs_verif`.
 //
-// `yield_point(id)` is called at places where the OS may preempt a thread anyway (never while a
-// lock is held). By default it does nothing; a test harness may install a callback that parks
+// `yield_point(id)` is called at places where the OS may preempt a thread anyway. Points 1-6 are
+// never reached while a lock is held; point 7 sits in `forget_one` between the reference-count load
+// and its compare-exchange, under the inode-map write lock: it exists for delay injection and a
+// callback that parks threads must let it pass. By default it does nothing; a test harness may install a callback that parks
 // the calling thread to steer the interleaving of concurrent requests.
 
 use std::sync::{Arc, RwLock};
